@@ -119,7 +119,12 @@ def tasks(tier):
     seed = int(os.environ.get("VERIF_SEED", "0") or 0)
     sk = K.skeletons(tier, seed)
     sizes = (2,) if tier == "quick" else (1, 2, 3)
-    return [(f"batched[{name}]", make_task([(name, skel)], sizes)) for name, skel in sk]
+    out = [(f"batched[{name}]", make_task([(name, skel)], sizes)) for name, skel in sk]
+    # unbounded in shapes and in the batch size A: the appliers / ParamViewer.get / _MainModel.expected_data under their class
+    # invariants (C01 tier P); row a of every result is a function of row a of the parameters only
+    from .C01_appliers import applier_tasks
+    out += [(n, f) for n, f in applier_tasks(tier) if ",batched" in n]
+    return out
 
 
 def replay(r):
